@@ -94,4 +94,188 @@ theorem monreqs_mark {m : Mon} {s : St} (mr : MonReqs m s) : MonReqs { m.mark (o
           rr.p2done, rr.late, rr.peer, rr.cpeer, rr.seen, rr.cfin⟩
       · subst hq; exact rr
 
+/-! ### explicit form of the cancel/retire folds -/
+
+/-- `cancelReq` on the meta list. -/
+def cancelM (c : Cause) (q : ReqMeta) : ReqMeta := if q.cancelled.isSome then q else { q with cancelled := some c }
+
+def cancelMetas (c : Cause) (l : List (Nat × Nat)) (ms : List ReqMeta) : List ReqMeta :=
+  l.foldl (fun ms p => ms.modify p.2 (cancelM c)) ms
+
+theorem cancelReq_eq (s : St) (r : Nat) (c : Cause) : cancelReq s r c = { s with metas := s.metas.modify r (cancelM c) } := rfl
+
+theorem foldl_cancel_eq (c : Cause) (l : List (Nat × Nat)) (s : St) :
+    l.foldl (fun s p => cancelReq s p.2 c) s = { s with metas := cancelMetas c l s.metas } := by
+  induction l generalizing s with
+  | nil => rfl
+  | cons p t ih =>
+    show t.foldl _ (cancelReq s p.2 c) = _
+    rw [ih]; rfl
+
+theorem retireIn_eq (s : St) (n : Nat) (r : Res) : ∃ cs pr, retireIn s n r = { s with calls := cs, panicRetire := pr } := by
+  unfold retireIn
+  split
+  · exact ⟨s.calls, s.panicRetire, rfl⟩
+  · simp only []
+    split
+    · exact ⟨_, true, rfl⟩
+    · exact ⟨_, s.panicRetire, rfl⟩
+
+theorem foldl_retire_eq (r : Res) (l : List Nat) (s : St) :
+    ∃ cs pr, l.foldl (fun s n => retireIn s n r) s = { s with calls := cs, panicRetire := pr } := by
+  induction l generalizing s with
+  | nil => exact ⟨s.calls, s.panicRetire, rfl⟩
+  | cons a t ih =>
+    simp only [List.foldl]
+    obtain ⟨cs, pr, h⟩ := retireIn_eq s a r
+    rw [h]
+    obtain ⟨cs', pr', h'⟩ := ih { s with calls := cs, panicRetire := pr }
+    exact ⟨cs', pr', h'⟩
+
+theorem markBroken_eq (s : St) :
+    markBroken s = if s.writeErr then s else { s with writeErr := true, metas := cancelMetas .write s.byID s.metas } := by
+  unfold markBroken; split
+  · rfl
+  · rw [foldl_cancel_eq]
+
+/-- The explicit effect of RX. -/
+theorem rx_eq {s s0 : St} (h : step0 s .rx = some s0) :
+    ∃ cs pr, s0 = tail { s with reader := .gone, reading := false, readErr := true, outCalls := [], calls := cs, panicRetire := pr, metas := cancelMetas .read s.byID s.metas } := by
+  simp only [step0] at h
+  split at h
+  · cases h
+  · cases h
+    obtain ⟨cs, pr, hf⟩ := foldl_retire_eq (.err .read) s.outCalls { s with reader := .gone, reading := false, readErr := true }
+    rw [hf, foldl_cancel_eq]
+    exact ⟨cs, pr, rfl⟩
+
+theorem cancelM_idem (c : Cause) (q : ReqMeta) : cancelM c (cancelM c q) = cancelM c q := by
+  unfold cancelM; split <;> simp_all
+
+/-- What `cancelMetas` does to one entry. -/
+theorem cancelMetas_get (c : Cause) (l : List (Nat × Nat)) (ms : List ReqMeta) (r : Nat) :
+    (cancelMetas c l ms)[r]? = (ms[r]?).map fun q => if r ∈ l.map (·.2) then cancelM c q else q := by
+  induction l generalizing ms with
+  | nil => simp [cancelMetas]
+  | cons p t ih =>
+    simp only [cancelMetas, List.foldl] at ih ⊢
+    rw [ih, List.getElem?_modify]
+    cases hm : ms[r]? with
+    | none => simp
+    | some q =>
+      by_cases hp : p.2 = r
+      · subst hp
+        by_cases hmem : p.2 ∈ t.map (·.2)
+        · simp [hmem, cancelM_idem]
+        · simp [hmem]
+      · have : ¬ r = p.2 := fun h => hp h.symm
+        simp only [hp, if_false, List.map_cons, List.mem_cons, this, false_or]
+        simp
+
+theorem cancelMetas_length (c : Cause) (l : List (Nat × Nat)) (ms : List ReqMeta) : (cancelMetas c l ms).length = ms.length := by
+  induction l generalizing ms with
+  | nil => rfl
+  | cons p t ih => simp only [cancelMetas, List.foldl] at ih ⊢; rw [ih, List.length_modify]
+
+
+/-! ### running_new -/
+
+def RunSub (l0 l : List ReqCore) : Prop :=
+  ∀ (j : Nat) (k0 : ReqCore), l0[j]? = some k0 → k0.pc = .running → ∃ k : ReqCore, l[j]? = some k ∧ k.pc = .running
+
+theorem RunSub.refl (l : List ReqCore) : RunSub l l := fun _ k0 h hr => ⟨k0, h, hr⟩
+
+theorem RunSub.modify {l0 l : List ReqCore} (h : RunSub l0 l) (r : Nat) (g : ReqCore → ReqCore)
+    (hg : ∀ k, (g k).pc = .running → k.pc = .running) : RunSub (l0.modify r g) l := by
+  intro j k0 hj hr
+  rw [List.getElem?_modify] at hj
+  cases hl : l0[j]? with
+  | none => simp [hl] at hj
+  | some k1 =>
+    simp only [hl] at hj
+    split at hj
+    · cases hj; exact h j k1 hl (hg _ hr)
+    · cases hj; exact h j _ hl hr
+
+theorem RunSub.append {l : List ReqCore} (k : ReqCore) (hk : k.pc ≠ .running) : RunSub (l ++ [k]) l := by
+  intro j k0 hj hr
+  rw [List.getElem?_append] at hj
+  split at hj
+  · exact ⟨k0, hj, hr⟩
+  · cases hx : j - l.length with
+    | zero => simp [hx] at hj; subst hj; exact absurd hr hk
+    | succ n => simp [hx] at hj
+
+@[simp] theorem modCore_cores' (s : St) (r : Nat) (f : ReqCore → ReqCore) : (modCore s r f).cores = s.cores.modify r f := rfl
+@[simp] theorem toP2_cores' (s : St) (r : Nat) : (toP2 s r).cores = s.cores.modify r (fun q => { q with pc := .p2 }) := rfl
+theorem beginPR_cores' (s : St) (r : Nat) (own : Owner) :
+    (beginPR s r own).cores = s.cores.modify r (fun k => { k with owner := own, pc := if k.isCall then .p1 else .p2 }) :=
+  congrArg ReqView.cores (reqView_beginPR s r own)
+@[simp] theorem afterP2_cores' (s : St) (r : Nat) (o : Owner) : (afterP2 s r o).cores = s.cores := by
+  cases o <;> rfl
+
+set_option linter.unusedSimpArgs false in
+set_option maxRecDepth 8000 in
+theorem runsub_step0 {s s0 : St} {l : Label} (h : step0 s l = some s0) (hl : l ≠ .d1) : RunSub s0.cores s.cores := by
+  by_cases ht : l.touchesReqs = false
+  · have := congrArg ReqView.cores (frame_reqs s s0 l h ht)
+    simp only [reqView] at this
+    rw [this]; exact RunSub.refl _
+  · by_cases hrx : l = .rx
+    · subst hrx
+      obtain ⟨cs, pr, rfl⟩ := rx_eq h
+      rw [tail_cores]; exact RunSub.refl _
+    cases l <;> simp [Label.touchesReqs] at ht <;> simp only [step0] at h
+    all_goals (repeat' (split at h))
+    all_goals first
+      | (simp at hl; done)
+      | (simp at hrx; done)
+      | (simp [Label.touchesReqs] at ht; done)
+      | (simp at h; done)
+      | (injection h with h; subst h
+         try simp only [tail_cores, modMeta_cores, modCore_cores', toP2_cores', beginPR_cores', afterP2_cores',
+           markBroken_cores, setNotif_cores, modCall_cores, retireIn_cores]
+         first
+         | exact RunSub.refl _
+         | (apply RunSub.append; simp; done)
+         | (repeat (first | exact RunSub.refl _ | (refine RunSub.modify ?_ _ _ (fun k hk => by first | exact hk | (simp at hk; done) | (simp only [] at hk; split at hk <;> simp at hk)))))
+         | (trace_state; sorry))
+
+/-- A handler starts only at D1, for the head of the queue. -/
+theorem running_new' {s s0 : St} {l : Label} {j : Nat} {k0 : ReqCore} (h : step0 s l = some s0)
+    (hk : s0.cores[j]? = some k0) (hr : k0.pc = .running) :
+    (∃ k, s.cores[j]? = some k ∧ k.pc = .running) ∨ (l = .d1 ∧ s.disp = .d1 ∧ ∃ rest, s.queue = j :: rest) := by
+  by_cases hl : l = .d1
+  · subst hl
+    simp only [step0] at h
+    split at h
+    · cases h
+    · rename_i hd
+      have hd : s.disp = .d1 := by simpa using hd
+      split at h
+      · cases h; rw [tail_cores] at hk; exact Or.inl ⟨k0, hk, hr⟩
+      · rename_i r rest hq
+        split at h
+        · cases h
+        · split at h
+          · cases h
+            have : RunSub (beginPR { tail { s with queue := rest } with disp := .busy r } r .dispatcher).cores s.cores := by
+              rw [beginPR_cores']
+              refine RunSub.modify ?_ _ _ (fun k hk => by simp only [] at hk; split at hk <;> simp at hk)
+              show RunSub (tail { s with queue := rest }).cores s.cores
+              rw [tail_cores]; exact RunSub.refl _
+            exact Or.inl (this j k0 hk hr)
+          · cases h
+            simp only [modMeta_cores, modCore_cores'] at hk
+            have hc : (tail { s with queue := rest }).cores = s.cores := by rw [tail_cores]
+            rw [List.getElem?_modify] at hk
+            by_cases hj : r = j
+            · subst hj; exact Or.inr ⟨rfl, hd, rest, hq⟩
+            · simp only [hj, if_false] at hk
+              have hk : s.cores[j]? = some k0 := by
+                rw [← hc]
+                cases hx : (tail { s with queue := rest }).cores[j]? <;> simp_all
+              exact Or.inl ⟨k0, hk, hr⟩
+  · exact Or.inl (runsub_step0 h hl j k0 hk hr)
+
 end Conn
